@@ -273,7 +273,8 @@ int main(void)
 			struct obj *ob = parse_obj(drv_w[2]);
 			char *name = parse_name(drv_w[3]);
 			uint8_t *dat = 0; size_t dlen = 0; int isnull = 0, ret;
-			if (!ob || !name || !*name) { puts("bad-op"); free(name); continue; }
+			/* the empty name (x:-) is the "assign from sibling" form: text sources carry no sibling */
+			if (!ob || !name) { puts("bad-op"); free(name); continue; }
 			if (!strcmp(drv_w[4], "null")) {
 				ret = ob->_obj._vptr->set_property(&ob->_obj, name, 0);
 			}
